@@ -91,6 +91,8 @@ macro_rules! arrival_orders {
 }
 
 arrival_orders!(t16_arrival_orders_rpb2_total3, 2, 3, 5);
+arrival_orders!(x16_single_batch_rpb3_total3, 3, 3, 5);
+arrival_orders!(x16_single_batch_rpb2_total2, 2, 2, 4);
 arrival_orders!(t16_arrival_orders_rpb1_total2, 1, 2, 4);
 arrival_orders!(t16_arrival_orders_rpb2_total2, 2, 2, 4);
 arrival_orders!(t16_arrival_orders_rpb1_total3, 1, 3, 5);
